@@ -16,5 +16,7 @@ CONSTANTS
   MaxPairs = 3
   MaxNodes = 8
   MaxSteps = 1
+  COrigins = {}
+  SOrigins = {}
 INVARIANT DirEmit
 CHECK_DEADLOCK FALSE
